@@ -7,3 +7,4 @@ from . import introspect_rules  # noqa: F401
 from . import lock_rules  # noqa: F401
 from . import schema_rules  # noqa: F401
 from . import taint_rules  # noqa: F401
+from . import abi_rules  # noqa: F401
